@@ -73,6 +73,7 @@ def gen_case(rng, idx, tier):
         "adv_seed": rng.randrange(1 << 30),
         "patterns": scenario.gen_selection(rng, names) if rng.random() < 0.3 else [],
         "perturbs": perturbs,
+        "symlinks": [s for s in dag["sources"] if rng.random() < 0.3],
     }
 
 
@@ -88,7 +89,10 @@ def run_case(case):
             cfg["use_spec_hashes"] = True
         proj.write_config(cfg)
         for f, tk in case["ticks"].items():
-            proj.set_file(f, tk)
+            if f in case.get("symlinks", ()) and tk is not None:
+                proj.set_file(f, tk, symlink=True, link_tick=tk)  # data outside the project; rewritten in place later
+            else:
+                proj.set_file(f, tk)
         mts = [dict(t, wd=proj.root) for t in ts]
         by = {t["name"]: t for t in mts}
         deps, _, _ = model.dependency_relation(mts)
